@@ -100,7 +100,24 @@ def rand_instant(rng, toks):
     return v
 
 
+def near_iso_pattern(rng):
+    """the ISO 8601 layout with (mostly) ISO separators: what the ISO8601 collapse must tell apart"""
+    toks = ['yyyy', 'MM', 'dd', 'HH', 'mm', 'ss']
+    seps = ['-', '-', rng.choice([' ', 'T']), ':', ':']
+    if rng.random() < 0.7:
+        toks.append(rng.choice(['S', 'SS', 'SSS']))
+        seps.append(rng.choice(['.', '.', ':', '-', '/', ' ', 'T']))
+    if rng.random() < 0.3:
+        i = rng.randrange(len(seps))
+        seps[i] = rng.choice(SEPS)
+    if rng.random() < 0.2:
+        toks, seps = toks[:3], seps[:2]
+    return toks, seps
+
+
 def sensible_pattern(rng):
+    if rng.random() < 0.2:
+        return near_iso_pattern(rng)
     """A pattern with each field kind at most once, in a plausible layout."""
     dsep = rng.choice(['-', '/', '.', ' '])
     dparts = [rng.choice(['d', 'dd']), rng.choice(['M', 'MM']), rng.choice(['yy', 'yyyy'])]
@@ -116,7 +133,7 @@ def sensible_pattern(rng):
             tseps.append(rng.choice([':', '.']) if rng.random() < 0.2 else ':')
             if rng.random() < 0.5:
                 tparts.append(rng.choice(['S', 'SS', 'SSS']))
-                tseps.append('.')
+                tseps.append('.' if rng.random() < 0.6 else rng.choice([':', '-', '/', ' ']))
         if rng.random() < 0.1:
             toks, seps = tparts, tseps   # time only
         else:
